@@ -22,6 +22,11 @@ def bufsLive (b : Bufs) : Nat :=
 
 /-! ### the temporary PDU arrays -/
 
+/-- the increment of the tree under test is positive (otherwise a full store would never grow) -/
+theorem storeIncr_pos : 0 < storeIncr := by decide
+
+theorem storeIncr_ne : storeIncr ≠ 0 := by have := storeIncr_pos; omega
+
 theorem storeLoop_ok : ∀ (items : List Item) (a : A) (b : Bufs),
     net (storeLoop items a b).2.1.trace = net a.trace + (bufsLive (storeLoop items a b).2.2 - bufsLive b : Int) ∧
     (NoLibc a.trace → NoLibc (storeLoop items a b).2.1.trace) := by
@@ -46,8 +51,11 @@ theorem storeLoop_ok : ∀ (items : List Item) (a : A) (b : Bufs),
           refine ⟨?_, fun h => i2 (q.nolibc h)⟩
           rw [i1, hn]
           have : bufsLive { b with s4 := b.s4 + storeIncr, n4 := b.n4 + 1 } = bufsLive b + (if b.s4 = 0 then 1 else 0) := by
-            simp only [bufsLive, storeIncr]
-            by_cases hz : b.s4 = 0 <;> simp [hz] <;> omega
+            have hne := storeIncr_ne
+            simp only [bufsLive]
+            by_cases hz : b.s4 = 0
+            · simp [hz, hne] <;> omega
+            · simp [hz]
           rw [this]
           by_cases hz : b.s4 = 0 <;> simp [hz] <;> omega
       · obtain ⟨i1, i2⟩ := ih a { b with n4 := b.n4 + 1 }
@@ -67,8 +75,11 @@ theorem storeLoop_ok : ∀ (items : List Item) (a : A) (b : Bufs),
           refine ⟨?_, fun h => i2 (q.nolibc h)⟩
           rw [i1, hn]
           have : bufsLive { b with s6 := b.s6 + storeIncr, n6 := b.n6 + 1 } = bufsLive b + (if b.s6 = 0 then 1 else 0) := by
-            simp only [bufsLive, storeIncr]
-            by_cases hz : b.s6 = 0 <;> simp [hz] <;> omega
+            have hne := storeIncr_ne
+            simp only [bufsLive]
+            by_cases hz : b.s6 = 0
+            · simp [hz, hne] <;> omega
+            · simp [hz]
           rw [this]
           by_cases hz : b.s6 = 0 <;> simp [hz] <;> omega
       · obtain ⟨i1, i2⟩ := ih a { b with n6 := b.n6 + 1 }
@@ -88,8 +99,11 @@ theorem storeLoop_ok : ∀ (items : List Item) (a : A) (b : Bufs),
           refine ⟨?_, fun h => i2 (q.nolibc h)⟩
           rw [i1, hn]
           have : bufsLive { b with sk := b.sk + storeIncr, nk := b.nk + 1 } = bufsLive b + (if b.sk = 0 then 1 else 0) := by
-            simp only [bufsLive, storeIncr]
-            by_cases hz : b.sk = 0 <;> simp [hz] <;> omega
+            have hne := storeIncr_ne
+            simp only [bufsLive]
+            by_cases hz : b.sk = 0
+            · simp [hz, hne] <;> omega
+            · simp [hz]
           rw [this]
           by_cases hz : b.sk = 0 <;> simp [hz] <;> omega
       · obtain ⟨i1, i2⟩ := ih a { b with nk := b.nk + 1 }
